@@ -117,7 +117,7 @@ class EvalContext(metaclass=NamespaceableMeta):
 
     def get_node(self, *path, **kwargs):
         path = NodePath.get_list_path(*path)
-        if str(path) in self._eval_cache:
+        if not self._require_all_safe and str(path) in self._eval_cache:
             return self._eval_cache[str(path)]
         return self.cfg.ayns.get_node(path, **kwargs)
 
